@@ -62,6 +62,17 @@ def render(op, a, o):
             return "bytes_eqb (sha1 %s) %s" % (cbytes(a[0]), cbytes(o[0]))
         if op == "crc32c":
             return "N.eqb (crc32c %s) %s" % (cbytes(a[0]), cN(o[0]))
+        if op == "b44buf":
+            return "bytes_eqb (rb_buf %s %s (%s)%%Z) %s" % (cbytes(a[0]), cbytes(a[2]), a[1], cbytes(o[0]))
+        if op == "b44checkin":
+            code = "0" if o[0] == "ok" else o[0]
+            if not code.lstrip("-").isdigit():
+                return None
+            it = lambda bv, cas, seq: "(rb_mk_item %s [] [] [] (%s)%%Z (%s)%%Z 0%%Z)" % (cbytes(bv), cas, seq)
+            return "Z.eqb (rb_checkin %s %s) (%s)%%Z" % (it(a[2], a[1], a[0]), it(a[5], a[4], a[3]), code)
+        if op == "b44target":
+            i = "(rb_mk_item %s %s %s [] 0%%Z 0%%Z 0%%Z)" % (cbytes(a[0]), cbytes(a[1]), cbytes(a[2]))
+            return "bytes_eqb (rb_target %s) %s" % (i, cbytes(o[0]))
         if op == "maskfor":
             return "bytes_eqb (mask_for_ip %s) %s" % (cbytes(a[0]), cbytes(o[0]))
         if op == "islocal":
@@ -86,6 +97,7 @@ def render(op, a, o):
 IMPORTS = {
     "metric": "From Dht Require Import Base Int160 Order RunMetric.",
     "security": "From Dht Require Import Base Sha1 Crc32c Security.",
+    "bep44": "From Dht Require Import Base Sha1 Bep44 RunBep44.",
 }
 
 
